@@ -102,6 +102,7 @@ class WorkerPool:
         self._workers = []
         self._worker_comms = WorkerComms(self.ctx, self.pool_params.n_jobs, self.pool_params.order_tasks)
         self._map_running = False
+        self._last_job_type: Optional[JobType] = None
 
         # Threads needed for gathering results, restarts, and checking for unexpective deaths and timeouts
         self._results_handler_thread = None
@@ -315,13 +316,23 @@ class WorkerPool:
                     
                     # Obtain task it was working on and set it to failed
                     job_id = self._worker_comms.get_worker_working_on_job(worker_id)
-                    job_type = self._cache[job_id].type
                     err = RuntimeError(
                         f"Worker-{worker_id} died unexpectedly. This usually means the OS/kernel killed the process "
                         "due to running out of memory"
                     )
-                    self._cache[job_id]._set(success=False, result=err)
-                    
+                    job = self._cache.get(job_id)
+                    if job is not None:
+                        job_type = job.type
+                        job._set(success=False, result=err)
+                    else:
+                        # The worker wasn't working on a job that is still active (e.g., it was idle in between tasks
+                        # or map calls). For apply tasks a replacement is all we need. Otherwise, the current or next
+                        # map call has to fail, which we report through the main process job
+                        job_type = self._last_job_type
+                        if job_type != JobType.APPLY:
+                            job_id = MAIN_PROCESS
+                            self._cache[MAIN_PROCESS]._set(success=False, result=err)
+
                     if job_type == JobType.APPLY:
                         # When a worker of an apply task dies unexpectedly we restart the worker and continue
                         self._worker_comms.reinit_comms_for_worker(worker_id)
@@ -755,6 +766,7 @@ class WorkerPool:
             # workers. We can yield from that
             imap_iterator = UnorderedAsyncResultIterator(self._cache, n_tasks, timeout=task_timeout)
             job_id = imap_iterator.job_id
+            self._last_job_type = imap_iterator.type
 
             # Create progress bar handler, which receives progress updates from the workers and updates the progress bar
             # accordingly
@@ -923,6 +935,7 @@ class WorkerPool:
 
         # Add task to the queue
         result = AsyncResult(self._cache, callback, error_callback, timeout=task_timeout)
+        self._last_job_type = result.type
         self._worker_comms.add_apply_task(result.job_id, func, args, kwargs)
         return result
 
